@@ -335,3 +335,79 @@ Proof.
   apply In_combine_map in H. destruct H as [Hq ->].
   apply imageBoxDial_guarantee. rewrite Forall_forall in HB. apply HB. exact Hq.
 Qed.
+
+(* ---- check-then-use: the dial decision is a member of the vetted answer and passes the policy *)
+Lemma imageBoxDialDecision_sound answer a :
+  imageBoxDialDecision answer = Some a ->
+  exists ips, answer = Some ips /\ In a ips /\ rejectImageBoxIPs ips = true /\
+              imageBoxBlockedIP a = false /\
+              (Forall bytes ips -> private_or_local a = false /\
+                                   forall b, In b ips -> private_or_local b = false).
+Proof.
+  unfold imageBoxDialDecision. destruct answer as [ips|]; [|discriminate].
+  destruct (rejectImageBoxIPs ips) eqn:V; [|discriminate]. intros E. injection E as <-.
+  exists ips. split; [reflexivity|].
+  unfold rejectImageBoxIPs in V. destruct ips as [|a0 rest]; [discriminate|]. cbn [hd].
+  split; [left; reflexivity|]. split; [exact V|].
+  assert (NB : imageBoxBlockedIP a0 = false).
+  { cbn [forallb] in V. apply andb_true_iff in V. destruct V as [V _].
+    destruct (imageBoxBlockedIP a0); [discriminate|reflexivity]. }
+  split; [exact NB|]. intros HB.
+  pose proof (proj1 (forallb_not_blocked _ HB) V) as V'.
+  split; [apply V'; left; reflexivity|exact V'].
+Qed.
+
+Lemma imageBoxDial_decision answer script :
+  imageBoxDial answer script =
+  match answer with
+  | None => DResolveErr
+  | Some _ => match imageBoxDialDecision answer with
+              | Some a => DDialled [dialTarget a] (hd false script)
+              | None => DRejected
+              end
+  end.
+Proof.
+  unfold imageBoxDial, imageBoxDialDecision. destruct answer as [ips|]; [|reflexivity].
+  destruct (rejectImageBoxIPs ips); reflexivity.
+Qed.
+
+Lemma revocationDialCandidates_sound allowed host answer a :
+  In a (revocationDialCandidates allowed host answer) ->
+  exists ips, answer = Some ips /\ In a ips /\ validateRevocationIPs host ips allowed = true /\
+    (allowedLookup allowed (normalizeRevocationHost host) = false ->
+       revocationBlockedIP a = false /\
+       (Forall bytes ips -> private_or_local a = false /\
+                            forall b, In b ips -> private_or_local b = false)).
+Proof.
+  unfold revocationDialCandidates. destruct answer as [ips|]; [|intros []].
+  destruct (validateRevocationIPs host ips allowed) eqn:V; [|intros []]. intros Ha.
+  exists ips. split; [reflexivity|]. split; [exact Ha|]. split; [exact V|].
+  intros NA. unfold validateRevocationIPs in V. destruct ips as [|i0 ir]; [destruct Ha|].
+  rewrite NA in V. split.
+  - rewrite forallb_forall in V. specialize (V a Ha). destruct (revocationBlockedIP a); [discriminate|reflexivity].
+  - intros HB. pose proof (proj1 (forallb_not_blocked _ HB) V) as V'. split; [apply V'; exact Ha|exact V'].
+Qed.
+
+Lemma revocationDial_candidates allowed host answer script :
+  revocationDial allowed host answer script =
+  match answer with
+  | None => DResolveErr
+  | Some ips => if validateRevocationIPs host ips allowed
+                then let (ts, c) := dialLoop (revocationDialCandidates allowed host answer) script in DDialled ts c
+                else DRejected
+  end.
+Proof.
+  unfold revocationDial, revocationDialCandidates. destruct answer as [ips|]; [|reflexivity].
+  destruct (validateRevocationIPs host ips allowed); reflexivity.
+Qed.
+
+(* a rebinding resolver: whatever it would answer to a 2nd, 3rd ... lookup is never consulted *)
+Lemma connect_first_answer_only allowed host first later later' script :
+  fst (fst (imageBoxConnect (first :: later) script)) = fst (fst (imageBoxConnect (first :: later') script)) /\
+  fst (fst (revocationConnect allowed host (first :: later) script)) =
+  fst (fst (revocationConnect allowed host (first :: later') script)) /\
+  snd (fst (imageBoxConnect (first :: later) script)) = 1 /\
+  snd (fst (revocationConnect allowed host (first :: later) script)) = 1 /\
+  snd (imageBoxConnect (first :: later) script) = later /\
+  snd (revocationConnect allowed host (first :: later) script) = later.
+Proof. repeat split. Qed.
